@@ -12,7 +12,7 @@ import sys
 from .. import eq, gen, fx, boot
 from ..docview import DocView
 from ..profile import Profile, vio
-from ..sim import Sim, Violation, split_reply
+from ..sim import Sim, Violation, StopRun, split_reply
 from .core import HistoryProfile
 
 
@@ -154,9 +154,25 @@ class C09(HistoryProfile):
               "remove_table", "duplicate_table", "add_reverse", "rename_column", "rename_table"):
       w[k] = w.get(k, 1) * 4
     w["update_records"] = 4
+    w["add_field"] = 6
     return w
 
   def check(self, sim, out, st):
+    if out.ev["k"] == "bundle" and out.pre is not None:
+      # A raw field record is taken as given by the engine (as from the Grist client, which only
+      # offers columns of the section's table). One that names a section or column that does not
+      # exist in the state it is applied to -- the generator's view of the document was stale
+      # inside a multi-action bundle, or the minimiser cut what created them -- is outside the
+      # domain, and so is everything after it.
+      dvp = DocView(out.pre)
+      secs = dict(dvp.records("_grist_Views_section"))
+      for a in out.ev.get("a", []):
+        if a[0] == "AddRecord" and a[1] == "_grist_Views_section_field":
+          sec = secs.get(a[3].get("parentId"))
+          col = dvp.col_by_ref.get(a[3].get("colRef"))
+          if sec is None or col is None or col.table.ref != sec.get("tableRef"):
+            sim.count("probe.stale_field_record")
+            raise StopRun()
     if out.ok and out.ev["k"] in ("bundle", "undo", "redo", "restart"):
       scan_meta_refs(sim, sim.sigma)
       self.note_nontrivial(sim, out, "meta_refs")
